@@ -176,3 +176,7 @@ mod tests {
         assert!(result.is_err());
     }
 }
+
+#[cfg(all(test, saito_verif))]
+#[path = "/verif/replay/in_crate/hop.rs"]
+mod verif_replay;
